@@ -3,6 +3,7 @@ import e2
 
 TIE = ["Nsq.Tie.Chan"]
 PROPS = ["Nsq.Props.C01", "Nsq.Props.C01Live"]
+PROPS = PROPS + ["Nsq.Props.C01DQ"]  # E9 glue (builder dq2): memory queue + go-diskqueue backend: overflow to disk and back keeps the multiset
 
 
 def run(ctx):
